@@ -128,4 +128,23 @@ theorem f14_witness :
     traceOf .setZero = some [Ev.rot ⟨.x, 16, 4⟩ 0] ∧ traceOf .loaded = some [Ev.rot ⟨.x, 16, 4⟩ 1] := by
   decide +kernel
 
+/-! ### requested bases → rotations in the request -/
+
+/-- one probe of the real `create_measure` / `create_rsp` / `create(tp=…)`: the rotations handed to the
+builder and the six slots of the serialized request are those of the model -/
+def probeOk (row : String × Option String × Option String × Rot × Rot × Rot × Rot × List Nat) : Bool :=
+  match requestRots Gen.bases row.2.1 row.2.2.1 row.2.2.2.1 row.2.2.2.2.1 with
+  | some (l, r) => row.2.2.2.2.2.1 == l && row.2.2.2.2.2.2.1 == r && row.2.2.2.2.2.2.2 == serRots l r
+  | none => false
+
+theorem rot_probes_ok : Gen.rotProbes.all probeOk = true := by decide +kernel
+
+/-- the probes exercise the discriminating situations: remote basis not named with remote rotations
+different from the local ones, and a name together with a (losing) tuple -/
+theorem rot_probes_cover :
+    (Gen.rotProbes.any (fun r => r.2.2.1 == none && r.2.2.2.2.1 != r.2.2.2.2.2.1 && r.2.2.2.2.1 != (0, 0, 0)) &&
+     Gen.rotProbes.any (fun r => r.2.1 != none && r.2.2.2.1 != (0, 0, 0)) &&
+     Gen.rotProbes.any (fun r => r.1 == "create_rsp") && Gen.rotProbes.any (fun r => r.1 == "create(tp=M)") &&
+     decide (Gen.rotProbes.length ≥ 170)) = true := by decide +kernel
+
 end NQ.BellObl
